@@ -1,5 +1,6 @@
 import Nstd.Common.Basic
 import Nstd.Rc.Model
+import Nstd.Rc.Nested
 /-
   Line protocol of the Rc area (property C09).
 
@@ -8,12 +9,15 @@ import Nstd.Rc.Model
     vcopy d s | vassign d s | vclear d | vseti d x | vsets d hex | vapp d hex | vpush d x | vswap a b | vsetl d x
     xcopy d s | xassign d s | xclear d | xsets d hex | xelem d hex
     pnew d x | pcopy d s | passign d s | pclear d | pswap a b
+    vpushv d s | vgetv d s k | xaddc d s | xgetc d s k     (payloads with several embedded handles, see Nested.lean)
     end                      (destroy every handle)
   Observation after every op:
     `<16 handle tokens> | <payload table> | live=<n> bad=<n>`
     handle token: `n` (static empty/null descriptor), `i<tag>.<hex>` (inline value), `b<pid>`
     payload table (payload ids in order of first designation by a handle):
-       `<pid>:L:<ref>:<tag>:<hex>` live, `<pid>:F` released once, `<pid>:X<k>` released k>1 times
+       `<pid>:L:<ref>:<tag>:<hex>` live, `<pid>:F` released once, `<pid>:X<k>` released k>1 times;
+       counted objects, list payloads and Xml elements append `>` and their embedded handles (`n` / `b<pid>`,
+       comma separated, `-` if there is none): the `next` handle, one token per list element, one per child
 
   Multi-threaded lines:
     hooks 0|1                whether the plain counter reads / in-place writes are scheduling points
@@ -32,9 +36,9 @@ open Nstd.Common
 namespace Nstd.Rc
 
 structure Thr where
-  prog : List ApiOp := []       -- API calls not yet started
+  prog : List NOp := []         -- API calls not yet started
   acts : List Act := []         -- remaining steps of the current phase
-  inPre : Option ApiOp := none  -- call whose `pre` phase is running (its `post` is still to be computed)
+  inPre : Option NOp := none    -- call whose `pre` phase is running (its `post` is still to be computed)
   started : Bool := false
   resume : Bool := false        -- it performed an atomic operation and waits to be scheduled again to run on
 
@@ -60,15 +64,27 @@ def scanVars (st : St) (seen : List Nat) : List Nat :=
     | .blk b => if acc.contains b then acc else acc ++ [b]
     | _ => acc) seen
 
+/-- the embedded handles printed for a payload: the `next` handle of a counted object, one per element of a list
+    payload, one per child of an Xml element -/
+def embShown (st : St) (b : Nat) : List Nat :=
+  match st.heap b with
+  | some blk =>
+    if blk.tag == tagObj then [embSlot b]
+    else if blk.tag == tagVList then (List.range blk.val.length).map (embSlotK b)
+    else if blk.tag == tagXElem then (embKs st b).map (embSlotK b)
+    else []
+  | none => []
+
 /-- payloads designated only by a handle embedded in another payload get their id after the variables,
     in the order of the payload table -/
 partial def closeSeen (st : St) (seen : List Nat) (i : Nat) : List Nat :=
   if i ≥ seen.length then seen
   else
     let b := seen.getD i 0
-    let seen' := match st.heap b, st.slots (embSlot b) with
-      | some blk, .blk c => if blk.tag == tagObj && !seen.contains c then seen ++ [c] else seen
-      | _, _ => seen
+    let seen' := (embShown st b).foldl (fun acc e =>
+      match st.slots e with
+      | .blk c => if acc.contains c then acc else acc ++ [c]
+      | _ => acc) seen
     closeSeen st seen' (i + 1)
 
 def scanSeen (st : St) (seen : List Nat) : List Nat := closeSeen st (scanVars st seen) 0
@@ -82,13 +98,16 @@ def handleTok (st : St) (seen : List Nat) (v : Nat) : String :=
     | none => "b?"
 
 def payloadTok (st : St) (seen : List Nat) (i b : Nat) : String :=
-  let embTok (b : Nat) : String := match st.slots (embSlot b) with
+  let embTok (e : Nat) : String := match st.slots e with
     | .blk c => (match idxOf seen c with | some k => s!"b{k}" | none => "b?")
     | _ => "n"
   match st.heap b with
   | some blk =>
     if st.freed b = 0 then
-      s!"{i}:L:{blk.ref}:{blk.tag}:{toHex blk.val}" ++ (if blk.tag == tagObj then ">" ++ embTok b else "")
+      let es := embShown st b
+      s!"{i}:L:{blk.ref}:{blk.tag}:{toHex blk.val}" ++
+        (if blk.tag == tagObj || blk.tag == tagVList || blk.tag == tagXElem then
+          ">" ++ (if es.isEmpty then "-" else ",".intercalate (es.map embTok)) else "")
     else s!"{i}:X{st.freed b}"
   | none => if st.freed b = 1 then s!"{i}:F" else s!"{i}:X{st.freed b}"
 
@@ -109,7 +128,7 @@ def num (t : String) : Option Nat := do
   let i ← t.toNat?
   if i < 256 then pure i else none
 
-def parseOp (ws : List String) : Option ApiOp :=
+def parseFlat (ws : List String) : Option ApiOp :=
   match ws with
   | ["snew", d, h] => do pure (.sNew (← idx 0 d) (← fromHex h))
   | ["slit", d, h] => do pure (.sLit (← idx 0 d) (← fromHex h))
@@ -156,6 +175,14 @@ def parseOp (ws : List String) : Option ApiOp :=
   | ["vsetm", d, k, x] => do pure (.vSetMap (← idx 1 d) (← num k) (← num x))
   | _ => none
 
+def parseOp (ws : List String) : Option NOp :=
+  match ws with
+  | ["vpushv", d, s] => do pure (.vPushV (← idx 1 d) (← idx 1 s))
+  | ["vgetv", d, s, k] => do pure (.vGetV (← idx 1 d) (← idx 1 s) (← num k))
+  | ["xaddc", d, s] => do pure (.xAddC (← idx 2 d) (← idx 2 s))
+  | ["xgetc", d, s, k] => do pure (.xGetC (← idx 2 d) (← idx 2 s) (← num k))
+  | _ => (parseFlat ws).map .flat
+
 /-! ### controlled interleaving -/
 
 def isSync (hooks : Bool) : Act → Bool
@@ -197,12 +224,12 @@ partial def refill (d : DSt) (tid : Nat) : DSt :=
   if !t.acts.isEmpty then d
   else match t.inPre with
     | some op =>
-      let t' := { t with acts := post d.st tid op, inPre := none }
+      let t' := { t with acts := postN d.st tid op, inPre := none }
       refill { d with thr := d.thr.set tid t' } tid
     | none => match t.prog with
       | [] => d
       | op :: r =>
-        let t' := { t with acts := pre d.st tid op, inPre := some op, prog := r }
+        let t' := { t with acts := preN d.st tid op, inPre := some op, prog := r }
         refill { d with thr := d.thr.set tid t' } tid
 
 def finished (d : DSt) (tid : Nat) : Bool :=
@@ -222,17 +249,18 @@ def isAtomic : Act → Bool
 partial def runLocal (d : DSt) (tid : Nat) : DSt :=
   let d := refill d tid
   let t := d.thr.getD tid {}
-  -- destructor of a counted object: a thread whose decrement reached zero and that does not own the
-  -- embedded handle takes it out of the dying object, deletes the object and then releases the handle
-  let acts := match t.acts with
+  -- destructor cascade (the same as `runC`): a thread whose decrement reached zero adopts the handles embedded in
+  -- the dying payload, deletes it and then releases each of them (every such decrement is a scheduling point)
+  let (st0, acts) := match t.acts with
     | .free :: r =>
-      (match d.st.pc tid with
-        | .freeing c =>
-          if (d.st.slots (embSlot c)).isBlk && d.st.owner (embSlot c) != tid then
-            [.takeF (tmpU tid) c 0, .free, .dec (tmpU tid), .free] ++ r
-          else t.acts
-        | _ => t.acts)
-    | _ => t.acts
+      (match dying d.st tid .free with
+        | some c =>
+          (match runT d.st tid (adoptAll d.st c ++ [.free]) with
+            | some s1 => (s1, relEmb c (embKs d.st c) ++ r)
+            | none => (d.st, t.acts))
+        | none => (d.st, t.acts))
+    | _ => (d.st, t.acts)
+  let d := { d with st := st0 }
   match acts with
   | [] => d
   | a :: r =>
@@ -310,7 +338,7 @@ def stepLine (d : DSt) (ws : List String) : DSt × String :=
     let s0 := (List.range nSlots).foldl (fun s v => giveTo s v 0) d.st
     let fin := (List.range nVars).foldl (fun (acc : Option St) v =>
       match acc with
-      | some s => runT s 0 (relP s 0 v relFuel)
+      | some s => runC (cascFuel s (relP s 0 v relFuel)) s 0 (relP s 0 v relFuel)
       | none => none) (some s0)
     match fin with
     | some s' => let d' := { d with st := s' }; (d', s!"end live={liveCount s'} bad={s'.viol}")
@@ -349,7 +377,7 @@ def stepLine (d : DSt) (ws : List String) : DSt × String :=
     match (if wellTyped d.st ws then parseOp ws else none) with
     | none => (d, "bad-op")
     | some op =>
-      match apiStep d.st 0 op with
+      match apiStepN d.st 0 op with
       | some s' =>
         let d' := { d with st := s', seen := scanSeen s' d.seen }
         (d', obs d')
